@@ -138,6 +138,8 @@ KANI_STUB_TRUST = [
     'Kani stub: PortActionIterator::from -> identical construction + recording (textual guard on the original body; c10_action_iterator_yields_list_then_ends proves the iterator yields exactly the list)',
     'Kani stub (announce-tx unit only): TlvSetBuilder::add -> contract "needs room; used += wire_size" (copying a value of symbolic length is out of reach); the real add is checked against it for lengths <= 8 (c15_tlv_builder_add_matches_contract)',
     'Kani stub: Message::serialize -> returns wire_size and records the message (port units compare emitted frames as messages; the byte encoding is the C04 obligations c04_message_serialize_layout / header / bodies)',
+    'Kani modular stubs (caller checked against the callee contract; each callee has its own harness): C06 chain Bmca::reregister_announce_message / ForeignMasterList::register_announce_message / ForeignMaster::{register_announce_message, step_age, purge_old_messages} -> recording stubs, take_qualified_announce_messages -> "hands out <= 2 stored messages", find_best_announce_message -> "one of the candidates"; instance BMCA: Port::{calculate_best_local_announce_message, best_local_announce_message_for_bmca, best_local_announce_message_for_state, set_recommended_state, step_announce_age}, Bmca::{calculate_recommended_state, step_age, take_best_port_announce_message} -> recording stubs, Duration::from_seconds / Interval::as_duration -> harness-chosen duration',
+    'Kani stubs (Kalman measurement unit): estimator updates (BaseFilter::{progress_filtertime, absorb_*}, MeasurementErrorEstimator::{absorb_measurement, measurement_variance}, KalmanFilter::update_wander) -> no-ops (no access to the clock), KalmanFilter::steer -> recording stub',
     'test doubles honouring the public trait contracts: RecFilter, RecClock (may fail at any call), AnyRng, AnyAccept, ChkLock, AnyProvider',
 ]
 
